@@ -108,6 +108,9 @@ class Result:
         self.extra_nodes = 0
 
 
+MAX_EXTRA_NODES = 3000  # chunk-only states followed before giving up on closing the induction (reported, never silent)
+
+
 def explore(make, events, obs, depth: int, seed: int = 0, perframe=None, batch: int = 64,
             commute: bool = True) -> Result:
     """BFS to `depth` events, then the chunk-commutation check from every node."""
@@ -148,7 +151,7 @@ def explore(make, events, obs, depth: int, seed: int = 0, perframe=None, batch: 
     # chunk commutation from every node whose remaining depth allows a chunk of >= 2 events
     work = [(dg, h, depth - ndepth[dg]) for dg, h in nodes.items() if depth - ndepth[dg] >= 2]
     rounds = 0
-    while work and rounds < 4:
+    while work and rounds < 3 and res.extra_nodes <= MAX_EXTRA_NODES:
         rounds += 1
         batches = _commute_tasks(work, len(_G["events"]))
         extra = []
@@ -164,7 +167,7 @@ def explore(make, events, obs, depth: int, seed: int = 0, perframe=None, batch: 
         # states reachable only by chunks (same outputs, different snapshot): explore them as nodes of their own
         work = []
         newnodes = []
-        for hist, dep in extra:
+        for hist, dep in extra[:MAX_EXTRA_NODES + 1]:
             r = make()
             for c in hist:
                 r.read(c)
